@@ -5,6 +5,7 @@ import (
 	"os"
 	"path/filepath"
 	"runtime"
+	"runtime/debug"
 	"strings"
 	"sync"
 	"sync/atomic"
@@ -150,6 +151,14 @@ func startHangMonitor() {
 			}
 		}()
 	})
+}
+
+// NoGC switches the garbage collector off until the returned function is
+// called: a file that is no longer referenced is closed by its finalizer at
+// some later collection, which would hide descriptors a failing call left open.
+func NoGC() func() {
+	old := debug.SetGCPercent(-1)
+	return func() { debug.SetGCPercent(old) }
 }
 
 // FDCount returns the number of open file descriptors of process pid (0 =
